@@ -419,6 +419,7 @@ class Component( ComponentLevel7 ):
         x._dsl.full_name = "<deleted>"+x._dsl.full_name
       for y in removed_consts:
         del y._dsl.parent_obj
+        top._dsl.all_adjacency.pop( y, None )
 
       # We don't break nets anymore. Instead, we set the flags to true so
       # that the next get_xxx_net will immediately recollect nets.
